@@ -78,6 +78,9 @@ func workerMain(args []string) {
 	engine.StartStallMonitor(func() {
 		fmt.Fprintf(os.Stdout, "STALL %d\n", current.Load())
 		os.Exit(4)
+	}, func() {
+		fmt.Fprintf(os.Stdout, "UNBOUNDED-WAIT %d\n", current.Load())
+		os.Exit(5)
 	})
 	for run := *from; run < *to; run += *stride {
 		if *deadline != 0 && engine.Now() > *deadline {
@@ -145,6 +148,9 @@ func execMain(args []string) {
 	engine.StartStallMonitor(func() {
 		fmt.Printf("STALL %d\n", p.Run)
 		os.Exit(4)
+	}, func() {
+		fmt.Printf("UNBOUNDED-WAIT %d\n", p.Run)
+		os.Exit(5)
 	})
 	fmt.Printf("BEGIN %d\n", p.Run)
 	res := engine.RunPlan(p, *keep)
